@@ -39,6 +39,9 @@ func level(e *Expr) int {
 
 // Print spells the grammar as PEG text.
 func Print(g *Grammar, o PrintOpts) string {
+	if g.Raw != "" {
+		return strings.ReplaceAll(g.Raw, "%PKG%", o.Pkg)
+	}
 	if o.Receiver == "" {
 		o.Receiver = "c"
 	}
